@@ -226,6 +226,8 @@ def graph_replay(ctx, pool, jobs, name, dot, fixed, unsafe, comps, budget_s):
     states = {nid: lib.state_norm(st) for nid, st in g.nodes.items()}
     rjobs, stats = lib.graph_jobs(g, lambda st: {"ntfs": bool(st["prot"]["ntfs"]), "hfs": bool(st["prot"]["hfs"])})
     ctx.rng.shuffle(rjobs)
+    # behaviours that start where a symbolic link is in the work tree first: a time-boxed run covers them
+    rjobs.sort(key=lambda j: not j.get("risky"))
     ctx.log(f"{name}: {stats['states']} states, {stats['transitions']} transitions, {len(rjobs)} jobs "
             f"(graph loaded in {time.time() - t0:.1f}s)")
     sent, it = pool.run(rjobs, states, unsafe, comps)
@@ -353,7 +355,7 @@ def run(ctx):
         plans = {
             "names1": ({"TreeSet": "<- TreesNames", "Ops": "<- OpsAll", "MaxLen": 1, "Prots": "<- AllProts"}, ctx.pick(20, 120)),
             "tiny3": ({"TreeSet": "<- TreesTiny", "Ops": "<- OpsAll", "MaxLen": 3, "Prots": D}, ctx.pick(25, 200)),
-            "mid2": ({"TreeSet": "<- TreesMid", "Ops": "<- OpsAll", "MaxLen": 2, "Prots": "<- ProtsQuick"}, ctx.pick(25, 200)),
+            "mid2": ({"TreeSet": "<- TreesMid", "Ops": "<- OpsAll", "MaxLen": 2, "Prots": D}, ctx.pick(25, 200)),
             "gl3": ({"TreeSet": "<- TreesGl", "Ops": "<- OpsAll", "MaxLen": 3, "Prots": D}, 60),
             "core2": ({"TreeSet": "<- TreesCore", "Ops": "<- OpsAll", "MaxLen": 2, "Prots": D}, 300),
             "small3": ({"TreeSet": "<- TreesSmall", "Ops": "<- OpsAll", "MaxLen": 3, "Prots": D}, 300),
